@@ -16,7 +16,9 @@ Tie half:
   * stream `records-synthetic`: random record lists, well-formed and deliberately not (disorder, states after
     conclusive ones, shared instance ids), built directly from RuntimeRecord objects, so that the raises correspond.
 Oracle (independent of the model): the clauses of the property on what `Tracking.get_runlog()` returned after every
-tick, and node flags vs. Completed items.
+tick; last clause per invocation: every write `node.completed = True` of the real code is observed (harness hook) and THE
+run-log item of the invocation in progress must be Completed at that tick's time, invocations must not share ids.
+Methods with repeated invocations of command nodes (macro called 2-4 times, re-firing Alarm) are 30 % of the cases.
 """
 from __future__ import annotations
 
@@ -37,13 +39,23 @@ META = dict(
                "tied to the code by differential execution: the tracking calls of real engine runs are replayed on the "
                "model and records + run log are compared after every tick; plus random well-formed and malformed "
                "record lists against get_runlog (raise kinds included).",
-    level_note="Models the code WITH fixes/C15-no-state-after-conclusive.diff (RuntimeRecord._add_state refuses states "
-               "for a concluded invocation); on a tree without it a late Force/Cancel request makes get_runlog() raise "
-               "for the rest of the run and the check reports that. The node-flag side of the last clause (a completed "
-               "node has a Completed state) is checked by the oracle on the real engine, not proved; a UOD command "
-               "cancelled before it started still runs (C12 root cause) and then shows as Cancelled although the node "
-               "completed: recorded as known finding. Not modelled: tag value snapshots and progress of items. "
-               "Assumption: engine tick times never decrease. Trusted: Lean kernel, harness.",
+    level_note="Models the code with the committed repair d8c530da (RuntimeRecord._add_state refuses states for a "
+               "concluded invocation); C15_asis_counterexample keeps the unrepaired behaviour refuted. The theorems of "
+               "part B are per RuntimeInfo: Stop, Restart and an accepted live edit install a FRESH RuntimeInfo "
+               "(MethodManager._create_interpreter; in the op stream an `init` op) so every run-log-producing state is "
+               "reachable from TS.init by the modelled ops; RuntimeInfo.with_edited_program / RuntimeRecord.with_edited_node "
+               "(a clone of the records for an edited program) have no caller in the engine and are not modelled - the check "
+               "scans the source for callers on every run and breaks the tie if one appears. Rec.visible also excludes "
+               "ProgramNode, InjectedNode wrappers, NullNode (user requests) and records without a name (none of them is a "
+               "method instruction that completes). The link from node.completed to a Completed state (callers of the "
+               "tracking API: interpreter, command manager) is not proved; it is covered by an oracle that is complete for the "
+               "generated executions: a harness hook observes EVERY write node.completed = True of the real code (also those "
+               "reset within the same tick) together with the invocation in progress, and demands THE item of that invocation "
+               "(by instance id) to be Completed with that tick's time, and distinct instance ids for distinct invocations. "
+               "Known findings (root causes outside the run log, narrow keys by node kind and site): a command cancelled "
+               "before it started still runs (C12), a Watch/Alarm body run by two generators (C02 alarm-nest). Not modelled: "
+               "tag value snapshots and progress of items. Assumption: engine tick times never decrease. Trusted: Lean kernel, "
+               "harness.",
     technique="Lean 4 proof (structural induction over states/records, invariant induction over tracking ops, "
               "mergeSort lemmas) + differential correspondence on engine runs and synthetic record lists + engine oracle",
 )
@@ -54,6 +66,28 @@ REQUIRED = ["OPM.C15.runlog_producible", "OPM.C15.runlog_producible_iff", "OPM.C
             "OPM.C15.C15_run_log", "OPM.C15.mark_completed_records_completed", "OPM.C15.C15_asis_counterexample"]
 
 USER_CMDS = ["Pause", "Unpause", "Hold", "Unhold", "Stop", "Restart", "Start"]
+
+
+def clone_callers() -> list[str]:
+    """Call sites of the record-cloning API (`with_edited_program`, `with_edited_node`) outside runlog.py itself.
+    The tracking model has no clone op because the engine installs a fresh RuntimeInfo on every interpreter reset."""
+    import ast
+    import pathlib
+    import openpectus
+    root = pathlib.Path(openpectus.__file__).parent
+    out = []
+    for f in sorted(root.rglob("*.py")):
+        rel = f.relative_to(root).as_posix()
+        if rel.startswith("test/") or rel == "lang/exec/runlog.py":
+            continue
+        try:
+            tree = ast.parse(f.read_text())
+        except SyntaxError:
+            continue
+        for n in ast.walk(tree):
+            if isinstance(n, ast.Attribute) and n.attr in ("with_edited_program", "with_edited_node"):
+                out.append(f"{rel}:{n.lineno}")
+    return out
 
 
 def with_flaky(rng, pcode: str, p: float) -> str:
@@ -101,7 +135,7 @@ def gen_case(rng, thorough: bool) -> dict:
         pcode = with_flaky(rng, pcode, 0.2)
     calm = 0.35 if repeat else 1.0          # repeated-invocation runs get fewer disturbances so that they get far
     sched = []
-    for k in range(rng.randrange(40, 80) if repeat else rng.randrange(20, 90 if thorough else 60)):
+    for k in range(rng.randrange(35, 65) if repeat else rng.randrange(20, 90 if thorough else 60)):
         ops = list(pre) if k == 0 else []
         x = rng.random() / calm
         if x < 0.10:
@@ -181,6 +215,10 @@ def synthetic_case(recs: list[dict]) -> tuple[list[str], list[str]]:
 def run(ctx: Check) -> int:
     ctx.prove(MODULE, REQUIRED)
     import harness.runlog_c15 as H
+    callers = clone_callers()
+    if callers:
+        ctx.proof_broken.append("RuntimeInfo.with_edited_program / with_edited_node now have callers outside runlog.py "
+                                f"({callers[:3]}): the record clone of a live edit is not an op of the tracking model")
     rng = ctx.rng
     thorough = ctx.tier == "thorough"
     ctx.rule = ("engine runs: methods from harness.gen_pcode (all features, 15 % malformed; 20 % of the UOD command lines "
@@ -193,7 +231,7 @@ def run(ctx: Check) -> int:
                 "non-trivial = at least two states.")
 
     # ---- engine runs: tracking ops + per-tick dumps, oracle on the real run log
-    cases = [dict(c) for c in load_corpus("C15")] + [gen_case(rng, thorough) for _ in range(ctx.n(40, 2000))]
+    cases = [dict(c) for c in load_corpus("C15")] + [gen_case(rng, thorough) for _ in range(ctx.n(30, 2000))]
     results: dict[int, dict] = {}
     for k, c in enumerate(cases):
         c["_k"] = k
@@ -213,7 +251,8 @@ def run(ctx: Check) -> int:
             ctx.count("run:" + key, v)
         for key, v in r["counts"].items():
             ctx.count("op:" + key, v)
-        ctx.count("cases:malformed" if c.get("malformed") else "cases:wellformed-method")
+        ctx.count("cases:malformed" if c.get("malformed") else
+                  ("cases:repeated-invocations" if c.get("repeat") else "cases:wellformed-method"))
         for key, detail, tick in r["fails"]:
             case = {kk: vv for kk, vv in c.items() if not kk.startswith("_")}
             ctx.fail(Failure(key, case, f"after tick {tick}: {detail}"))
@@ -221,7 +260,7 @@ def run(ctx: Check) -> int:
 
     # ---- record lists of engine runs as data
     every = ctx.n(6, 1)
-    sub = cases[:ctx.n(16, 300)]
+    sub = cases[:ctx.n(12, 300)]
     rec_cache: dict[int, tuple[list[str], list[str]]] = {}
     for c in sub:
         rec_cache[c["_k"]] = records_engine_case(c, every)
@@ -229,7 +268,7 @@ def run(ctx: Check) -> int:
                    nontrivial=lambda c, o: len(o) > 10, impl_timeout=120)
 
     # ---- synthetic record lists
-    syn = [{"recs": H.gen_records(rng, wf=(i % 2 == 0)), "wf": i % 2 == 0} for i in range(ctx.n(1500, 40000))]
+    syn = [{"recs": H.gen_records(rng, wf=(i % 2 == 0)), "wf": i % 2 == 0} for i in range(ctx.n(1000, 40000))]
     syn_cache = [synthetic_case(s["recs"]) for s in syn]
     for i, s in enumerate(syn):
         s["_k"] = i
